@@ -25,6 +25,8 @@ var (
 	ErrSystem       = errors.New("internal system error")
 	ErrNotAuthrized = errors.New("not authrized")
 	ErrInvalid      = errors.New("invalid")
+	// ErrAlreadyStarted is returned by Start on a running server.
+	ErrAlreadyStarted = errors.New("already started")
 )
 
 const (
